@@ -209,7 +209,8 @@ def run(kind, seed, n_workers, conf, criterion_kwargs, tuner_conf=None):
                   sleep_time=0, callbacks=[cb, TL.Recorder(tl_ev)], results_update_interval=1e9, print_update_interval=1e9,
                   tuner_name=name, suffix_tuner_name=False, save_tuner=False, max_failures=3,
                   asynchronous_scheduling=tc.get("async", True),
-                  wait_trial_completion_when_stopping=tc.get("wait", False))
+                  wait_trial_completion_when_stopping=tc.get("wait", False),
+                  start_jobs_without_delay=tc.get("sjwd", True))
     o_cond = tuner._stop_condition
 
     def stop_condition():
